@@ -4,13 +4,15 @@ From Coq Require Import List ZArith String Bool.
 Import ListNotations.
 Require Import Naga.Base.Json.
 Require Import Naga.Dxil.BitsModel Naga.Dxil.BitstreamModel Naga.Dxil.DxbcModel Naga.Dxil.Md5Model Naga.Dxil.MetaModel Naga.Dxil.CheckModel.
-Require Import Naga.Gen.DxilConsts.
+Require Import Naga.Dxil.Md5Table.
 Require Extraction.
 Require Import ExtrOcamlBasic.
 Open Scope Z_scope.
 Open Scope string_scope.
 
-Definition steps := gen_md5_steps.
+(* the RFC 1321 step table (the specification); Dxil/GenObligations.v obliges the table
+   regenerated from hash.go to be equal to it *)
+Definition steps := rfc_steps.
 
 Definition jerr (m : string) : json := JObj [("ok", JBool false); ("err", JStr m)].
 
